@@ -10,7 +10,7 @@ import Driver.Util
   element      id:t0:t1            lists: comma separated, `-` = empty
   order        f | r | x<n>        completion order of the chunks: forward, reversed, rotated by n
   event        call@<curve>@<k>@<mp>@<workers>@<chunk>@<order>@<w|n|p>@<tests>@<trials>
-               crash@… (same fields) | trunc@<curve>@<tests>@<trials> | rm@… | garble@…
+               crash@… (same fields) | trunc@<curve>[@<k>]@<tests>@<trials> | rm@… | garble@…
   token leaf   bil trial test = (k+1)·2²² + 2048·id(trial) + id(test) + 1, and 0 on acausal pairs for kind `c`
                lin elem       = (k+1)·2²² + id(elem) + 1
 -/
@@ -83,8 +83,11 @@ def reprTE (e : TE) : List Char := (toString e.id).toList ++ [')']
 /-- configurations (curve number, variant `k`): the file name sees the curve only -/
 def slFamily : Family (Nat × Nat) TE Nat := ⟨fun c => curveName c.1, fun c => tokenLeaf true c.2⟩
 
+/-- the `problem` string handed to `InitialOperator` names the data `u0` (variant `k`), as in example.py -/
+def problemName (c : Nat × Nat) : List Char := curveName c.1 ++ 'p' :: (toString c.2).toList
+
 def vecFamily : VecFamily (Nat × Nat) TE Nat :=
-  ⟨fun c => curveName c.1, fun c => curveName c.1, fun c => tokenLin c.2⟩
+  ⟨problemName, fun c => curveName c.1, fun c => tokenLin c.2⟩
 
 abbrev SLKey := List Char × Nat × Nat × List Char
 abbrev VKey := List Char × Nat × List Char
@@ -104,6 +107,14 @@ def parseEvent? {K I : Type} (mkInp : Nat → Nat → List TE → List TE → I)
     let sv ← parseSave? sv
     if kind = "call" then some (.call inp how sv, key inp)
     else if kind = "crash" then some (.crash inp how sv, key inp)
+    else none
+  | [kind, c, k, ts, tr] => do
+    let c ← c.toNat?; let k ← k.toNat?
+    let ts ← parseTEs? ts; let tr ← parseTEs? tr
+    let k := key (mkInp c k ts tr)
+    if kind = "trunc" then some (.truncate k, k)
+    else if kind = "rm" then some (.remove k, k)
+    else if kind = "garble" then some (.garble k, k)
     else none
   | [kind, c, ts, tr] => do
     let c ← c.toNat?
